@@ -78,7 +78,9 @@ var depthSlack = func() int {
 // genCaseC01 draws a C01 case.
 func genCaseC01(t *rapid.T) *Case {
 	strategy := rapid.SampledFrom([]string{"R", "A", "X", "X"}).Draw(t, "strategy")
-	p := Profile{Strategy: strategy, MaxDepth: rapid.IntRange(2, 5).Draw(t, "maxDepth"), Mutation: true}
+	// (conditions on selections are part of what the selection semantics prescribe; their own
+	// truth table is C09's subject)
+	p := Profile{Strategy: strategy, MaxDepth: rapid.IntRange(2, 5).Draw(t, "maxDepth"), Mutation: true, Dirs: rapid.IntRange(0, 3).Draw(t, "conditions") == 0}
 	if strategy == "X" {
 		p.Abstract = rapid.Bool().Draw(t, "abstract")
 	} else {
